@@ -43,7 +43,20 @@ def llvm_binop_cases(src: str):
         if reg not in ("Add", "Subtract", "Multiply"):
             continue
         cases = set()
-        for node in ast.walk(fn):
+        # the function's own match arms and those of module-level helpers it calls (an extracted shared lowering)
+        module_fns = {f.name: f for f in tree.body if isinstance(f, ast.FunctionDef)}
+        todo, seen_fns = [fn], []
+        while todo:
+            g = todo.pop()
+            if g in seen_fns:
+                continue
+            seen_fns.append(g)
+            for node in ast.walk(g):
+                if isinstance(node, ast.Call) and isinstance(node.func, ast.Name) and node.func.id in module_fns and node.func.id != "ir_to_llvm_expression":
+                    h = module_fns[node.func.id]
+                    if not h.decorator_list or all("register" not in ast.unparse(d) for d in h.decorator_list):
+                        todo.append(h)
+        for node in (n_ for g in seen_fns for n_ in ast.walk(g)):
             if isinstance(node, ast.Match):
                 for c in node.cases:
                     p = c.pattern
